@@ -91,6 +91,14 @@ impl Scenario for Dens {
         if sparse_huge {
             spec.m = rng.log_range(1500, 6000) as usize;
         }
+        if rng.chance(0.004) {
+            // one long slice (thousands of items, any length) against the item-wise twin
+            spec.m = rng.log_range(16, 512) as usize;
+            let n = rng.range(4000, 12_000);
+            let base = rng.u64() >> 2;
+            let items: Vec<u64> = (0..n).map(|k| if spec.elem == ElemT::U32 { (base + k) & 0xffff_ffff } else { base + k }).collect();
+            return DensPlan { spec, ops: vec![DOp::Slice(items)], planted_ties: 0 };
+        }
         if tier == Tier::Thorough && rng.chance(0.0007) {
             // one huge slice (above a million items) against the item-wise twin
             spec.m = rng.log_range(1024, 16_384) as usize;
